@@ -267,6 +267,13 @@ def gen_c15(seed, tier):
     op["cfg"]["obs_yield"] = rng.random() < 0.5
     op["cfg"]["max_errors"] = rng.choice([0, 1, 3, None])
     op["cfg"]["transform"] = rng.choice([None, None, None, "relabel", "extra-call"])
+    if seed % 9 == 4:
+        # Ctrl-C during the run: the observer is exited once, after every other notification
+        op.setdefault("faults", {}).setdefault("calls", {})
+        op["faults"]["interrupt_at"] = rng.randrange(1, 6)
+        for n in desc["world"]["nodes"]:
+            if n["kind"] == "call":
+                n["dur"] = rng.choice([1.0, 2.0, 5.0])
     if "faults" in op:
         for f in op["faults"]["calls"].values():
             if rng.random() < 0.7:
@@ -278,7 +285,13 @@ GEN.update({"C06": gen_c06, "C07": gen_c07, "C10": gen_c10, "C13": gen_c13, "C15
 
 
 def o_c06(rec, world, hist):
-    return O.o_fail(rec, world, hist)
+    out = O.o_fail(rec, world, hist)
+    if (rec.op.get("faults") or {}).get("thread_start_fail") and isinstance(rec.exc, RuntimeError) \
+            and "start new thread" in str(rec.exc):
+        # (the pool could not start all its threads: that error is what run raises; nothing downstream of a failed
+        #  call may have started all the same)
+        out = [v for v in out if v["oracle"] == "downstream-of-failure"]
+    return out
 
 
 def o_c07(rec, world, hist):
@@ -300,6 +313,10 @@ def o_c13(rec, world, hist):
 
 
 def o_c15(rec, world, hist):
+    if O._interrupt_inside_started_wait(rec):
+        # finding F6 (an interrupt inside Thread.start() leaves a worker that is never joined): what that worker
+        # reports after run has returned is accounted for under C17, where F6 is listed as a known finding
+        return []
     return O.o_progress(rec, world, hist)
 
 
@@ -913,6 +930,24 @@ def gen_c01(seed, tier):  # noqa: F811
                               p_nested=0.15, durs=(0.0, 0.0, 1.0, 2.0), out_modes=("struct", "struct", "node"))
         desc["ops"][0]["cfg"]["max_errors"] = 0
         return desc
+    if seed % 29 == 6:
+        # two or three runs of one Plan overlapping in time: every call of every run starts after ITS run's
+        # dependencies (a call started too early receives None and computes another value: each run must return
+        # the reference value)
+        desc, rng = base_desc(seed, tier, p_dep=0.3, p_kw=0.2, p_nested=0.2, durs=(0.0, 1.0, 1.0, 2.0), out_modes=("node", "struct"))
+        desc["mode"] = "concurrent"
+        desc["clients"] = rng.choice([2, 2, 3])
+        desc["ops"][0]["cfg"].update(max_errors=0, retry=None, max_workers=rng.choice([2, 3]))
+        return desc
+    if seed % 29 == 7:
+        # the pool cannot start (all of) its threads: whatever the engine falls back to, a call whose dependency
+        # failed never starts
+        desc, rng = base_desc(seed, tier, faults=True, p_dep=0.4)
+        op = desc["ops"][0]
+        op["cfg"]["max_errors"] = rng.choice([1, 3, None])
+        op["cfg"]["max_workers"] = rng.choice([1, 2, 3])
+        op["faults"]["thread_start_fail"] = rng.choice([1, 1, 2])
+        return desc
     if seed % 4 == 3 and seed % 3 == 0:
         # "finished executing successfully": a failed dependency never releases its dependents, whatever max_errors
         desc, rng = base_desc(seed, tier, faults=True, p_dep=0.4, p_lit=0.15, p_parallel=0.3, p_late_dep=0.25)
@@ -933,7 +968,7 @@ _execute_plain = execute
 def execute(prop, desc):  # noqa: F811
     if desc.get("mode") == "direct":
         return exec_direct(prop, desc)
-    if prop == "C02" and desc.get("mode") == "concurrent":
+    if prop in ("C01", "C02") and desc.get("mode") == "concurrent":
         return exec_c02_concurrent(prop, desc)
     return _execute_plain(prop, desc)
 
@@ -961,6 +996,10 @@ def gen_c06(seed, tier):  # noqa: F811
         desc = _registry_fault_desc(seed, tier, "c06r")
     else:
         desc = _gen_c06_plain(seed, tier)
+    if seed % 11 == 5 and not any(n.get("store") for n in desc["world"]["nodes"]):
+        rng = worldgen.child_rng(seed, "c06t")
+        desc["ops"][0]["faults"]["thread_start_fail"] = rng.choice([1, 1, 2])
+        desc["ops"][0]["cfg"]["max_errors"] = rng.choice([1, 3, None])
     if seed % 5 == 1:
         # a bundled display whose sink is broken while failures are being reported: the error run raises is still
         # the call's own
@@ -1007,6 +1046,21 @@ _gen_c10_base = gen_c10
 
 def gen_c10(seed, tier):  # noqa: F811
     rng = worldgen.child_rng(seed, "c10x")
+    if seed % 13 == 9:
+        # many independent calls failing at the same instant on several workers: the error limit still bounds them
+        w = rng.randrange(6, 13)
+        d = rng.choice([0.0, 1.0])
+        nodes = [dict(id=i, kind="call", args=[], kwargs=[], deps=[], scope=[], dur=d, ret="val", fname="f", depth=0)
+                 for i in range(w)]
+        nodes.append(dict(id=w, kind="call", args=[["n", i] for i in range(w)], kwargs=[], deps=[], scope=[], dur=0.0,
+                          ret="val", fname="h", depth=0))
+        world = dict(nodes=nodes, stores={}, late_deps=[], output=["n", w])
+        cfg = dict(max_workers=rng.choice([2, 2, 3, 4]), scheduler=rng.choice([None, "default", "random"]),
+                   max_errors=rng.choice([1, 1, 2, 3]), retry=None, stale_workers=None, output=True)
+        faults = dict(calls={str(i): dict(exc=rng.choice(["E1", "E2"])) for i in range(w)})
+        sc = worldgen.gen_sched(rng)
+        sc["gran"] = "opcode"
+        return dict(seed=seed, world=world, ops=[dict(op="run", cfg=cfg, faults=faults)], sched=sc)
     if seed % 13 == 4:
         # run(max_workers=None): the pool is sized from the core count; a wide plan keeps it saturated, with equal
         # durations several calls finish at the same instant
